@@ -1597,10 +1597,16 @@ class Norm:
 
     def _vec_parts(self, init, effs, rel):
         """let mut v = INIT; (v.push(x) under for / if / match-arm guards)*   ==   vec+(parts of INIT.., guarded x..)"""
-        if not effs or not all(k == "mutcall" and cshort(n.get("callee", "")) == "Vec::push" and self._lhs_path(n["recv"]) == "" for n, k, _g in effs):
+        PUSH, INS = ("Vec::push", "Punctuated::push"), ("Vec::insert", "Punctuated::insert")
+
+        def front(n, r):
+            # insert(0, x), unconditionally: x becomes the first part
+            return cshort(n.get("callee", "")) in INS and not r and len(n["args"]) == 2 and self._t(n["args"][0]) == ("lit", "0")
+        if not effs or not all(k == "mutcall" and self._lhs_path(n["recv"]) == "" and (cshort(n.get("callee", "")) in PUSH or front(n, r))
+                               for (n, k, _g), r in zip(effs, rel)):
             return None
         parts = []
-        if init[0] == "call" and init[1] in ("Vec::new", "Vec::with_capacity", "Default::default"):
+        if init[0] == "call" and init[1] in ("Vec::new", "Vec::with_capacity", "Default::default", "Punctuated::new"):
             pass
         elif init[0] == "call" and init[1] == "vec!":
             parts += list(init[2])
@@ -1616,6 +1622,9 @@ class Norm:
             return None           # the plain map/collect form, (b) below
         loops = set()
         for (n, _k, _g), r in zip(effs, rel):
+            if front(n, r):
+                parts.insert(0, self._t(n["args"][1]))
+                continue
             inner = self._t(n["args"][0])
             for g in reversed(r):
                 if g[0] == "for":
